@@ -281,7 +281,11 @@ type Relay struct {
 	Accept int
 	First  []int // first client->server byte of every accepted connection (-1 = none seen yet)
 	frozen bool  // while set, relayed bytes are swallowed (the carrier stays open and goes silent)
+	rate   int   // bytes per second in each direction (0 = unlimited): a slow carrier
 }
+
+// SetRate makes the carrier slow: at most n bytes per second are forwarded in each direction (in slices of n/20).
+func (r *Relay) SetRate(n int) { r.mu.Lock(); r.rate = n; r.mu.Unlock() }
 
 // Freeze makes the carrier a black hole in both directions without closing it (nothing is forwarded while frozen).
 func (r *Relay) Freeze(on bool) { r.mu.Lock(); r.frozen = on; r.mu.Unlock() }
@@ -338,9 +342,30 @@ func (r *Relay) pipeIdx(from, to net.Conn, up bool, idx int) {
 			} else if !up && len(r.down) < 8<<20 {
 				r.down = append(r.down, buf[:n]...)
 			}
-			frozen := r.frozen
+			frozen, rate := r.frozen, r.rate
 			r.mu.Unlock()
 			if frozen {
+				continue
+			}
+			if rate > 0 {
+				slice := rate / 20
+				if slice < 1 {
+					slice = 1
+				}
+				failed := false
+				for off := 0; off < n && !failed; off += slice {
+					end := off + slice
+					if end > n {
+						end = n
+					}
+					if _, werr := to.Write(buf[off:end]); werr != nil {
+						failed = true
+					}
+					time.Sleep(time.Duration(end-off) * time.Second / time.Duration(rate))
+				}
+				if failed {
+					break
+				}
 				continue
 			}
 			if _, werr := to.Write(buf[:n]); werr != nil {
